@@ -1,3 +1,4 @@
 pub mod range;
 pub mod de;
 pub mod xlsx_sheet;
+pub mod xlsx_strings;
